@@ -66,7 +66,7 @@ fn order_key(infos: Vec<ColInfo>) -> BoxedStrategy<(Expr, Vec<String>)> {
     .boxed()
 }
 
-fn query_strategy(t: &LogicalTable, layout: &Layout) -> BoxedStrategy<GenQuery> {
+pub fn query_strategy(t: &LogicalTable, layout: &Layout) -> BoxedStrategy<GenQuery> {
     let infos = qgen::col_infos(t);
     let rows = t.rows;
     // partition lengths (as ingested; compaction may merge them)
@@ -152,6 +152,10 @@ pub fn kf_shape(gq: &GenQuery, t: &LogicalTable, layout: &Layout) -> Vec<&'stati
     // a key column that is entirely NULL/absent in some partition while typed in another: merge has no common type
     if q.order_by.iter().any(|(e, _)| col_null_in_some_batch(e)) && ranges.len() > 1 {
         out.push("KF-orderby-null-typed-partition");
+    }
+    // ORDER BY + WHERE over several partitions: per-partition results are concatenated, not merged
+    if !q.order_by.is_empty() && q.filter.is_some() && ranges.len() > 1 {
+        out.push("KF-orderby-filter-merge");
     }
     // arithmetic over a column that is Null-typed in some partition is declined (see C03 KF-null-typed-compare)
     if q.select.iter().any(|i| !matches!(i.expr, Expr::Col(_)) && col_null_in_some_batch(&i.expr)) {
